@@ -126,3 +126,23 @@ Theorem C22_present_driver_scaling_refuted :
     code_viol k true cv = Some [(1 # 2) * viol 0 1 (nth 0 cv 0)].
 Proof. exact present_driver_scaling_refuted. Qed.
 Print Assumptions C22_present_driver_scaling_refuted.
+
+(* The residual vector that find_feasible minimises (Driver._compute_con_viol: the linear constraints
+   first, then the nonlinear ones) is defined and is the zero vector exactly when every element of
+   every constraint — equality or inequality, scalar or per-element bounds — is satisfied, for any
+   number of constraints of any sizes, any linear/nonlinear partition, with or without driver scaling
+   (well-formed metadata: lower <= upper per element, no zero scaler). *)
+Theorem C22_residual_zero_iff_all_satisfied :
+  forall cs ds x v,
+    (forall s, In s cs -> con_wf (con_of s) (length (con_value s x))) ->
+    con_viol_vector cs ds x = Some v ->
+    (Forall (fun r => r == 0) v <-> forall s, In s cs -> con_sat (con_of s) (con_value s x)).
+Proof. exact residual_zero_iff_all_satisfied. Qed.
+Print Assumptions C22_residual_zero_iff_all_satisfied.
+
+Theorem C22_residual_defined :
+  forall cs ds x,
+    (forall s, In s cs -> con_wf (con_of s) (length (con_value s x))) ->
+    exists v, con_viol_vector cs ds x = Some v.
+Proof. exact residual_defined. Qed.
+Print Assumptions C22_residual_defined.
